@@ -20,6 +20,10 @@ var ErrInjected = errors.New("simfs: injected write error")
 
 var Epoch = time.Date(2015, 1, 1, 0, 0, 0, 0, time.UTC)
 
+// TickLen is the real time one tick of the logical clock stands for: a fraction of a second, so that most consecutive writes
+// fall into the same whole second (as they do on a real filesystem with fine-grained modification times)
+var TickLen = 130 * time.Millisecond
+
 type File struct {
 	Data  []byte
 	MTick int64
@@ -86,7 +90,7 @@ func (f *FS) Names() []string {
 func (f *FS) mapfs() fstest.MapFS {
 	m := fstest.MapFS{}
 	for k, v := range f.Files {
-		m[k] = &fstest.MapFile{Data: v.Data, Mode: 0644, ModTime: Epoch.Add(time.Duration(v.MTick) * time.Second)}
+		m[k] = &fstest.MapFile{Data: v.Data, Mode: 0644, ModTime: Epoch.Add(time.Duration(v.MTick) * TickLen)}
 	}
 	return m
 }
